@@ -16,7 +16,8 @@ STYLE = {3: "asked for value-level changes that leave call graph/locks/loops alo
          11: "asked for observability / diagnostics / test-seam additions that are supposed to be behaviour-neutral (new gauges and histograms, live queue-length accessors, tracing wrappers, rate-limited error reports, per-subscriber statistics) but break the property; nothing existing is removed",
          12: "plausible but wrong repairs of the known findings (C09-F1, C11-F1, C13-F1, C18-F1): the agent was given the property text and, unlike in the other rounds, the confirmed defect with its witness, and asked for a repair that fixes the witness but leaves or introduces a violation; stored under the property it breaks",
          13: "no style asked for: the most likely real-world regression of the property not tried yet, 1-15 lines on the core code paths (a last measurement in the style of rounds 1-4)",
-         14: "a pull-request-sized clean-up (40-120 changed lines, 1-3 files: helper extraction, merged matches, renamed locals, new private types) with exactly one subtle behavioural change buried in it; the same agent also wrote the twin PR with that one change repaired (selftest/benign t14_*)"}
+         14: "a pull-request-sized clean-up (40-120 changed lines, 1-3 files: helper extraction, merged matches, renamed locals, new private types) with exactly one subtle behavioural change buried in it; the same agent also wrote the twin PR with that one change repaired (selftest/benign t14_*)",
+         17: "asked, in the brief's own words, for changes that need something specific to manifest - a particular interleaving / race window, a fault at a particular point (panicking callback, poisoned lock, closed or full channel, pool already shut down), a multi-step API sequence, an unusual input or configuration, or two cooperating edits that each look harmless alone; no summaries of earlier changes were given"}
 n = 0
 for f in sys.argv[2:]:
     for l in open(f):
@@ -42,8 +43,8 @@ for f in sys.argv[2:]:
         shutil.copy(src + "/demo.rs", dst + "/demo.rs")
         am = json.load(open(src + "/meta.json"))
         note = "" if r["suite_with"] else "verify_seed.sh saw a suite failure twice; re-run by hand: only the sleep-based flake channel::tests::test_channel_backpressure_drop_latest (fails on the unmodified tree under load too)"
-        meta = {"id": "%s-mut%d" % (c, k), "property": c, "round": rnd, "summary": am.get("summary", ""), "mechanism": am.get("mechanism", ""), "needs": am.get("needs", ""),
-                "author": "independent sub-agent (round %d, %s) given only the property text, one-line summaries of earlier changes to avoid, and a scratch worktree" % (rnd, STYLE.get(rnd, "")),
+        meta = {"id": "%s-mut%d" % (c, k), "property": c, "round": rnd, "summary": am.get("summary", ""), "mechanism": am.get("mechanism", ""), "needs": am.get("needs", ""), **({"family": am["family"]} if "family" in am else {}),
+                "author": "independent sub-agent (round %d, %s) given only the property text%s and a scratch worktree" % (rnd, STYLE.get(rnd, ""), "" if rnd >= 17 else ", one-line summaries of earlier changes to avoid,"),
                 "agent_ran": am.get("ran", am.get("agent_ran", [])),
                 "confirmed_by_me": {"how": "selftest/verify_seed.sh in a scratch worktree of /repo HEAD", "patch_applies": True, "existing_suite_passes_with_patch": True,
                                     "demo_with_patch": "fails", "demo_without_patch": "passes", "note": note}}
